@@ -354,14 +354,30 @@ func init() {
 	}
 	extraOps["setEnv"] = func(r *Runner, st Step) error {
 		r.EnvIdx = mod(st.I, len(PkgEnvs))
-		e := PkgEnvs[r.EnvIdx]
-		env := &manifests.PackageEnvironment{Kubernetes: manifests.PackageEnvironmentKubernetes{Version: e.KubeVersion}}
-		if e.OpenShift {
-			env.OpenShift = &manifests.PackageEnvironmentOpenShift{Version: "v4.13.0"}
-		}
-		r.W.SetEnv(env)
+		r.applyEnv()
 		return nil
 	}
+	// setHyperShift: PKO runs (On) or does not run on a HyperShift management cluster
+	extraOps["setHyperShift"] = func(r *Runner, st Step) error {
+		r.HyperShift = st.On
+		r.applyEnv()
+		return nil
+	}
+}
+
+// applyEnv hands the current environment variant to every environment-aware controller (what the environment manager does
+// on start and periodically).
+func (r *Runner) applyEnv() {
+	e := PkgEnvs[mod(r.EnvIdx, len(PkgEnvs))]
+	env := &manifests.PackageEnvironment{Kubernetes: manifests.PackageEnvironmentKubernetes{Version: e.KubeVersion}}
+	if e.OpenShift {
+		env.OpenShift = &manifests.PackageEnvironmentOpenShift{Version: "v4.13.0"}
+	}
+	if r.HyperShift {
+		env.HyperShift = &manifests.PackageEnvironmentHyperShift{}
+		r.Labels["hypershift-environment"] = true
+	}
+	r.W.SetEnv(env)
 }
 
 func max1(n int) int {
